@@ -45,7 +45,7 @@ type Transfer struct {
 	// Excluded reports whether the filter rules in effect on this side
 	// exclude name. Excluded entries are protected from --delete.
 	// May be nil.
-	Excluded func(name string) bool
+	Excluded func(name string, isDir bool) bool
 
 	// state
 	Conn            *rsyncwire.Conn
